@@ -68,7 +68,7 @@ def run(rep, tier, seed):
     for i, c in enumerate(cases):
         c["seed"] = seed * 29 + i
         c["nvar"] = 6 if tier == "quick" else 14
-    res = realrun.pmap(judge, cases, chunk=20)
+    res = realrun.pmap(judge, cases, chunk=20, min_items=80)
     texts = []
     for c, r in zip(cases, res):
         if "bad" in r:
